@@ -61,6 +61,9 @@ var (
 	c25KeyPool   = []string{"logs/a", "logs/b", "logs/a/x", "data/x", "tmp/1", "l", "logs"}
 	c25PfxPool   = []string{"", "logs/", "data/", "l", "logs/a", "tmp/", "zzz"}
 	c25TagPool   = [][2]string{{"env", "prod"}, {"env", "dev"}, {"tier", "cold"}, {"", "x"}}
+	// tag predicates with an EMPTY value (valid in S3): they select objects that carry the key with an empty
+	// value, not objects that lack the key
+	c25EmptyTagPool = [][2]string{{"archive", ""}, {"env", ""}}
 	c25SizePool  = []int64{0, 1, 100, 1024, 1025, 5000}
 	c25ClassPool = []string{"STANDARD_IA", "GLACIER", "DEEP_ARCHIVE", "ONEZONE_IA"}
 	c25TodPool   = []time.Duration{0, 1, time.Second, 12 * time.Hour, c25DayD - time.Second, c25DayD - 1}
@@ -69,12 +72,29 @@ var (
 
 func c25GenTags(r *verifx.Rng) map[string]string {
 	m := map[string]string{}
+	if r.Chance(1, 4) {
+		return m // completely untagged
+	}
 	for _, t := range c25TagPool[:3] {
 		if r.Chance(1, 3) {
 			m[t[0]] = t[1]
 		}
 	}
+	if r.Chance(1, 5) {
+		m["archive"] = verifx.Pick(r, []string{"", "", "yes"})
+	}
+	if _, ok := m["env"]; !ok && r.Chance(1, 8) {
+		m["env"] = ""
+	}
 	return m
+}
+
+// c25FilterTag picks a tag predicate for a rule filter: mostly a non-empty value, sometimes an empty one.
+func c25FilterTag(r *verifx.Rng) [2]string {
+	if r.Chance(1, 4) {
+		return verifx.Pick(r, c25EmptyTagPool)
+	}
+	return verifx.Pick(r, c25TagPool[:3])
 }
 
 func c25GenSelector(r *verifx.Rng, ru *storage.LifecycleRule) {
@@ -86,7 +106,7 @@ func c25GenSelector(r *verifx.Rng, ru *storage.LifecycleRule) {
 	case 2, 3:
 		ru.Filter = &storage.LifecycleFilter{Prefix: c25PStr(verifx.Pick(r, c25PfxPool))}
 	case 4:
-		t := verifx.Pick(r, c25TagPool[:3])
+		t := c25FilterTag(r)
 		ru.Filter = &storage.LifecycleFilter{Tag: &storage.LifecycleTag{Key: t[0], Value: t[1]}}
 	case 5:
 		ru.Filter = &storage.LifecycleFilter{ObjectSizeGreaterThan: c25P64(verifx.Pick(r, c25SizePool))}
@@ -97,7 +117,7 @@ func c25GenSelector(r *verifx.Rng, ru *storage.LifecycleRule) {
 		if r.Bool() {
 			a.Prefix = c25PStr(verifx.Pick(r, c25PfxPool))
 		}
-		for _, t := range [][2]string{c25TagPool[r.Intn(2)], c25TagPool[2]} {
+		for _, t := range [][2]string{c25TagPool[r.Intn(2)], c25TagPool[2], c25EmptyTagPool[0]} {
 			if r.Chance(2, 5) {
 				a.Tags = append(a.Tags, storage.LifecycleTag{Key: t[0], Value: t[1]})
 			}
@@ -578,6 +598,23 @@ func c25DirectedCases() []*c25Fake {
 	cs = append(cs, c25Directed("enabled", "pithos", d(0, 0), []storage.LifecycleRule{{Status: en, Filter: pfx("logs/"),
 		NoncurrentVersionTransitions: []storage.LifecycleNoncurrentVersionTransition{{NoncurrentDays: c25P32(1), NewerNoncurrentVersions: c25P32(1), StorageClass: "GLACIER"}}}},
 		map[string][]c25V{"logs/a": rebump()}, nil))
+	// empty-valued tag predicates: `archive=""` selects the object that carries the key with an empty value,
+	// neither the untagged one nor the one with another value — for the current version, a noncurrent version
+	// and a transition
+	emptyTag := []storage.LifecycleRule{
+		{Status: en, Filter: &storage.LifecycleFilter{Tag: &storage.LifecycleTag{Key: "archive", Value: ""}}, Expiration: &storage.LifecycleExpiration{Days: c25P32(1)}},
+		{Status: en, Filter: &storage.LifecycleFilter{And: &storage.LifecycleFilterAnd{Prefix: c25PStr("v/"), Tags: []storage.LifecycleTag{{Key: "archive", Value: ""}}}},
+			NoncurrentVersionExpiration: &storage.LifecycleNoncurrentVersionExpiration{NoncurrentDays: c25P32(1)}},
+		{Status: en, Filter: &storage.LifecycleFilter{Tag: &storage.LifecycleTag{Key: "env", Value: ""}}, Transitions: []storage.LifecycleTransition{{Days: c25P32(0), StorageClass: "GLACIER"}}},
+	}
+	cs = append(cs, c25Directed("enabled", "s3", d(0, 0), emptyTag, map[string][]c25V{
+		"logs/a": {{vid: "v00001", created: d(-20, 0), size: 10, etag: "aa", tags: map[string]string{"archive": ""}}},
+		"logs/b": {{vid: "v00002", created: d(-20, 0), size: 10, etag: "bb"}},
+		"logs/c": {{vid: "v00003", created: d(-20, 0), size: 10, etag: "cc", tags: map[string]string{"archive": "yes", "env": "prod"}}},
+		"logs/d": {{vid: "v00004", created: d(-20, 0), size: 10, etag: "dd", tags: map[string]string{"env": ""}}},
+		"v/x": {{vid: "v00007", created: d(-5, 0), size: 10, etag: "x3"}, {vid: "v00006", created: d(-20, 0), size: 10, etag: "x2"},
+			{vid: "v00005", created: d(-25, 0), size: 10, etag: "x1", tags: map[string]string{"archive": ""}}},
+	}, nil))
 	return cs
 }
 
